@@ -30,6 +30,13 @@ def refinement(*conditions: Union[SymbolicExpression[T], bool, Predicate]) -> Sy
     new_conditions_root = ExceptIf(SymbolicExpression._current_parent_(), new_branch)
     new_branch._node_.weight = RDREdge.Refinement
     new_conditions_root._parent_ = prev_parent
+    if isinstance(prev_parent, BinaryOperator):
+        # the parent operator evaluates its left/right operands, the refined node has to take the place of the node it
+        # refines there too (as is done for alternatives), otherwise the refinement is never evaluated.
+        if prev_parent.left is current_node:
+            prev_parent.left = new_conditions_root
+        elif prev_parent.right is current_node:
+            prev_parent.right = new_conditions_root
     return new_conditions_root.right
 
 
